@@ -250,12 +250,17 @@ Record unknown_fact := mkUnk { u_func : string; u_what : string; u_text : string
 
 (* calls of interest (harness/cmd/vskel callsOfInterest), sync-method calls on fields of
    listed types ("T.f.Method"), channel operations on such fields ("close(T.f)", "send(T.f)",
-   "recv(T.f)") and uses of a function of interest as a value *)
+   "recv(T.f)"), uses of a function of interest as a value, calls through func-typed fields
+   ("T.f()") and interface-typed fields ("T.f.Method") of listed types, Lock/Unlock calls
+   ("lock(T.f)", "unlock(T.f)", "rlock", "runlock"; "unlock(?x)" through an alias x),
+   go statements on function literals ("go:F$n"), make(chan T, n) ("makechan(T,n)") *)
 Inductive chow := HCall | HGo | HDefer | HValue.
 Record call_fact := mkCall {
   k_caller : string; k_callee : string; k_how : chow;
   k_locks : list (string * lmode);     (* must-hold lockset at the call *)
   k_written : list string;             (* fields "T.f" written earlier in the caller on every path *)
+  k_after : list string;               (* calls of interest executed earlier on every path (of the caller or its callers) *)
+  k_maybe : list string;               (* calls of interest possibly executed earlier in the same function body *)
   k_in_go : bool;                      (* the caller is (inside) the operand of a go statement *)
   k_pos : string
 }.
